@@ -484,3 +484,67 @@ def revalidate(pre_ops, ops, paced=True):
         taint_after(before, m, op)
         kept.append(op)
     return kept, m
+
+
+def all_ops(m: Model, names=("a", "b"), max_depth=2):
+    """Every operation (of the C01 alphabet) whose pre-condition holds in state m over a tiny universe - used for
+    the exhaustive enumeration of 1- and 2-operation histories."""
+    out = []
+    dirs = [d for d in m.dirs_in(ROOT) if d.count("/") < max_depth]
+    ents = sorted(q for q in m.t if is_under(q, ROOT) and q != ROOT)
+    for d in dirs:
+        for n in names:
+            p = d + "/" + n
+            out += [["mkfile", p], ["mkdir", p], ["movein_file", "s0", p], ["movein_tree", TREE_SHAPES[3], p]]
+            if max_depth - d.count("/") >= 2:
+                out.append(["makedirs", d, [n, names[0]]])
+            for s in ents:
+                out.append(["rename", s, p])
+    for e in ents:
+        out += [["chmod", e], ["moveout", e, "o0"]]
+        if m.kind(e) == "f":
+            out += [["write", e], ["unlink", e]]
+        else:
+            out += [["rmdir", e], ["rmtree", e]]
+    return [op for op in out if valid(m, op, paced=True)]
+
+
+ENUM_PRE = [
+    [],
+    [["mkfile", "root/a"]],
+    [["mkdir", "root/a"]],
+    [["mkdir", "root/a"], ["mkfile", "root/a/b"], ["mkdir", "root/a/a"]],
+    [["mkdir", "root/a"], ["mkdir", "root/b"], ["mkfile", "root/b/a"]],
+]
+_ENUM_CACHE = {}
+
+
+def enum_histories():
+    """All 1- and 2-operation histories (second operation with and without a drain in between) over ENUM_PRE."""
+    if "h" in _ENUM_CACHE:
+        return _ENUM_CACHE["h"]
+    hs = []
+    for pre in ENUM_PRE:
+        m0 = Model()
+        for op in pre:
+            apply(m0, op)
+        m0.drain()
+        for op1 in all_ops(m0):
+            hs.append((pre, [op1]))
+            for drained in (True, False):
+                m1 = Model()
+                m1.t = dict(m0.t)
+                m1.next_id = m0.next_id
+                before = Model.__new__(Model)
+                before.t = dict(m1.t)
+                apply(m1, op1)
+                taint_after(before, m1, op1)
+                if drained:
+                    m1.drain()
+                for op2 in all_ops(m1):
+                    if op2[0] in ("moveout", "movein_file") and op1[0] == op2[0]:
+                        op2 = list(op2)
+                        op2[1 if op2[0] == "movein_file" else 2] = "o1" if op2[0] == "moveout" else "s1"
+                    hs.append((pre, [op1] + ([["drain"]] if drained else []) + [op2]))
+    _ENUM_CACHE["h"] = hs
+    return hs
